@@ -93,7 +93,7 @@ Lemma update_effect c t k e cond names vals t' it' f :
   t_update lang_match lang_update c t k e cond names vals = (t', WOk (Some it') f) ->
   exists key, get_key (t_ks t) (t_defs t) k = inr key /\ t_data t' = insert key it' (t_data t) /\
               exists f', interp_update lang_update c (t_name t) e
-                            (match lookup key (t_data t) with Some i => i | None => k end) vals names = Ok (it', f').
+                            (match lookup key (t_data t) with Some i => i | None => Key.key_item (t_ks t) k end) vals names = Ok (it', f').
 Proof.
   unfold t_update. destruct (get_key _ _ _) as [er|key]; [intros X; now inversion X|].
   destruct (check_cond _ _ _ _ _ _ _) as [[[] f0]| | |]; try (intros X; now inversion X).
